@@ -13,7 +13,7 @@ from rsx import LostAnchor, SourceFile, code_tokens, match_close, strip_comments
 
 VERIF = os.path.dirname(os.path.dirname(os.path.abspath(__file__)))
 REPO = os.environ.get("VERIF_REPO", "/repo")
-EDIT_CLASSES = {"X", "T", "A", "S", "F", "P", "D", "L", "V", "I"}
+EDIT_CLASSES = {"X", "T", "A", "S", "F", "P", "D", "L", "V", "I", "G"}
 
 
 class Emitter:
@@ -699,6 +699,69 @@ def desugar_try_for_each(body, count, where, prov, rename=None):
     return body
 
 
+def desugar_match_str_literals(body, where, prov):
+    """class D: `match X { Some("a") => A, Some("b") => B, None => N, _ => W }` on an Option<&str> becomes
+       `match X { None => N, Some(lit_d6) => if str_eq(lit_d6, "a") { A } else if str_eq(lit_d6, "b") { B } else { W } }`
+       (a string literal pattern matches by string equality; arms are tried in order; Verus has no literal string patterns).
+       Only this exact shape: arms Some(<string literal>), at most one None arm, a final `_` arm."""
+    toks = code_tokens(body)
+    cands = []
+    for i, t in enumerate(toks):
+        if t[1] == "match" and t[0] == "id":
+            j = i + 1
+            while toks[j][1] != "{":
+                j += 1
+            c = match_close(toks, j)
+            inner = toks[j + 1:c]
+            if any(inner[q][1] == "Some" and inner[q + 1][1] == "(" and inner[q + 2][0] == "str" and inner[q + 3][1] == ")" for q in range(len(inner) - 3)):
+                cands.append((i, j, c))
+    if len(cands) != 1:
+        raise LostAnchor("%s: expected exactly one match on string literals, found %d" % (where, len(cands)))
+    i, j, c = cands[0]
+    scrut = body[toks[i + 1][2]:toks[j - 1][3]]
+    # split arms at depth-0 commas
+    arms = []
+    a = j + 1
+    q = a
+    while q < c:
+        if toks[q][0] == "punct" and toks[q][1] in "([{":
+            q = match_close(toks, q) + 1
+            continue
+        if toks[q][1] == ",":
+            if q > a:
+                arms.append((a, q))
+            a = q + 1
+        q += 1
+    if a < c:
+        arms.append((a, c))
+    lits, none_arm, wild = [], None, None
+    for (x, y) in arms:
+        k = x
+        while not (toks[k][1] == "=" and toks[k + 1][1] == ">"):
+            k += 1
+        pat = [t[1] for t in toks[x:k]]
+        expr = body[toks[k + 2][2]:toks[y - 1][3]]
+        if len(pat) == 4 and pat[0] == "Some" and pat[1] == "(" and toks[x + 2][0] == "str" and pat[3] == ")":
+            if wild is not None:
+                raise LostAnchor("%s: literal arm after the wildcard" % where)
+            lits.append((pat[2], expr))
+        elif pat == ["None"]:
+            none_arm = expr
+        elif pat == ["_"]:
+            wild = expr
+        else:
+            raise LostAnchor("%s: unsupported arm pattern `%s` in a match on string literals" % (where, " ".join(pat)))
+    if wild is None or not lits:
+        raise LostAnchor("%s: match on string literals without wildcard arm" % where)
+    chain = " else ".join("if str_eq(lit_d6, %s) { %s }" % (l, e) for l, e in lits) + " else { %s }" % wild
+    new = "match %s {\n" % scrut
+    if none_arm is not None:
+        new += "            None => %s,\n" % none_arm
+    new += "            Some(lit_d6) => %s,\n        }" % chain
+    prov.append({"cls": "D", "what": "match on Option<&str> with string literal patterns desugared to an equality chain", "literals": [l for l, _ in lits]})
+    return body[:toks[i][2]] + new + body[toks[c][3]:]
+
+
 def desugar_question_controlflow(body, where, prov):
     """class D: `E?` in a function returning ControlFlow<B, _> is
        `match E { ControlFlow::Continue(c) => c, ControlFlow::Break(b) => return ControlFlow::Break(b) }` (impl Try for ControlFlow)."""
@@ -1024,6 +1087,13 @@ class Unit:
                 if len(c) != 1:
                     raise LostAnchor("registry source of %s %s not found" % (crate, m.group(1)))
                 self.files[rel] = SourceFile(c[0], "%s-%s/%s" % (crate, m.group(1), sub))
+            elif rel.endswith(".lalrpop"):
+                # class G: every alternative's action block as a function (tools/grammar.py), rendered from the current text
+                import grammar
+                path = os.path.join(self.repo, rel)
+                txt, meta = grammar.parse(open(path, encoding="utf-8").read())
+                self.files[rel] = SourceFile(path, rel, text=txt)
+                self.files[rel].grammar_meta = meta
             else:
                 self.files[rel] = SourceFile(os.path.join(self.repo, rel), rel)
         return self.files[rel]
@@ -1080,8 +1150,18 @@ class Unit:
             attrs, derives = _strip_attrs(it.attrs, prov)
             sig = strip_comments(it.sig)
             body = strip_comments(it.body)
+            gm = getattr(sf, "grammar_meta", None)
+            if gm is not None:
+                import grammar
+                m = gm[it.name]
+                prov.append({"cls": "G", "what": "grammar action of %s (alternative %d, src/aidl.lalrpop line %d) rendered as a function; pattern: %s"
+                             % (m["nt"], m["alt"], m["line"], " ".join((e["name"] + ":" if e["name"] else "") + e["sym"] for e in m["layout"]))})
+                rec["lines"] = [m["line"], m["line"]]
+                if spec.get("layout_requires"):
+                    spec = dict(spec)
+                    spec["requires"] = [{"id": "G.layout_" + it.name, "text": " && ".join("(%s)" % c for c in grammar.layout_requires(dict(m, layout=[dict(e) for e in m["layout"]])))}] + list(spec.get("requires", []))
             if spec.get("contract_only"):
-                spec = {k: v for k, v in spec.items() if k not in ("lift", "fold_lift", "desugar_folds", "desugar_map_collect_sets", "desugar_iter_mut_chain", "desugar_for_each", "desugar_try_for_each", "desugar_question_controlflow", "desugar_iter_mut_for_each", "closure", "autofmt", "top", "loop")}
+                spec = {k: v for k, v in spec.items() if k not in ("lift", "fold_lift", "desugar_folds", "desugar_map_collect_sets", "desugar_iter_mut_chain", "desugar_for_each", "desugar_try_for_each", "desugar_question_controlflow", "desugar_match_str_literals", "desugar_iter_mut_for_each", "closure", "autofmt", "top", "loop")}
                 spec["edit"] = [e for e in spec.get("edit", []) if e.get("in") == "sig"]
             sig = apply_edits(sig, [e for e in spec.get("edit", []) if e.get("in") == "sig"], where, prov)
             body = apply_edits(body, [e for e in spec.get("edit", []) if e.get("in", "body") == "body"], where, prov)
@@ -1091,6 +1171,8 @@ class Unit:
                 body = desugar_try_for_each(body, spec["desugar_try_for_each"], where, prov, spec.get("rename_bound"))
             if spec.get("desugar_question_controlflow"):
                 body = desugar_question_controlflow(body, where, prov)
+            if spec.get("desugar_match_str_literals"):
+                body = desugar_match_str_literals(body, where, prov)
             if spec.get("desugar_for_each"):
                 body = desugar_for_each(body, spec["desugar_for_each"], where, prov)
             if spec.get("desugar_iter_mut_chain"):
